@@ -152,7 +152,45 @@ def harnesses(t):
         tagged = configured and k in (1, 2) and lo <= t <= hi
         ok = ok and (g.operands == (["valid_addr"] if tagged else i.operands))
     return ok
-''', timeout=T, prelude=PRE, key="chain", note="prepare_observers installs the observer iff configured; the chain keeps number, order, addresses"))
+''', timeout=T, prelude=PRE, key="chain", note="prepare_observers installs the observer iff configured; the chain keeps number, order, addresses", probe=["chain(True, 0, 64, 1, 2, 4, 16, 80, 0)", "chain(False, 0, 0, 1, 2, 3, 16, 16, 0)", "chain(True, 32, 48, 1, 1, 0, 40, 16, 0)"]))
+    hs.append(ch.H("c18/chain_history", '''def chain_history(conf0: bool, lo0: int, hi0: int, configured: bool, lo: int, hi: int, k: int, t: int) -> bool:
+    """
+    pre: lo0 >= 0 and hi0 >= 0 and lo >= 0 and hi >= 0 and t >= 0
+    pre: 1 <= k <= 4
+    post: _
+    """
+    cfg = JASMConfig.get_instance()
+    # an EARLIER operation of the same process prepared its observers (with or without a range of its own) ...
+    cfg._set_info("valid_addr_range", ValidAddrRange(min_addr=HexStr(False, lo0), max_addr=HexStr(True, hi0)) if conf0 else None)
+    mop0 = MasterOfPuppets.__new__(MasterOfPuppets)
+    mop0.global_config = cfg
+    obs0 = mop0.prepare_observers()
+    c0 = CompleteConsumer("r", MatchedObserver(), MatchingSearchMode.first_find, False)
+    for o in obs0:
+        c0.add_observer(o)
+    c0._process_instruction(Instruction("0", "call", [HexStr(False, t)]))
+    # ... and THIS operation must tag by its own configuration only
+    cfg._set_info("valid_addr_range", ValidAddrRange(min_addr=HexStr(False, lo), max_addr=HexStr(True, hi)) if configured else None)
+    mop = MasterOfPuppets.__new__(MasterOfPuppets)
+    mop.global_config = cfg
+    c = CompleteConsumer("r", MatchedObserver(), MatchingSearchMode.first_find, False)
+    for o in mop.prepare_observers():
+        c.add_observer(o)
+    if k == 1:
+        i = Instruction("1", "call", [HexStr(False, t)])
+    elif k == 2:
+        i = Instruction("1", "jmp", [HexStr(True, t), "x"])
+    elif k == 3:
+        i = Instruction("1", "call", ["*%rax"])
+    else:
+        i = Instruction("1", "mov", ["%rax", "%rbx"])
+    want = list(i.operands)
+    g = c._process_instruction(i)
+    if g is None or g.addr != "1" or g.mnemonic != i.mnemonic:
+        return False
+    tagged = configured and k in (1, 2) and lo <= t <= hi
+    return g.operands == (["valid_addr"] if tagged else want)
+''', timeout=T, prelude=PRE, key="chain_history", note="the observers prepared for an earlier operation (with its own range) do not influence this operation's tagging", probe=["chain_history(True, 0, 64, False, 0, 0, 1, 16)", "chain_history(True, 0, 64, True, 100, 200, 2, 16)", "chain_history(False, 0, 0, True, 0, 64, 1, 16)"]))
     # config loading: the range object is rebuilt or reset on every load
     hs.append(ch.H("c18/load", '''def load(present: bool, lo: int, hi: int, stale: bool) -> bool:
     """
